@@ -43,6 +43,13 @@ CLAIMED = {
         "Trusts the harness's trapezoid formula; tolerance 1e-10 of sum|terms|.",
         "DESIGN.md section 6 C02",
     ),
+    "C03": (
+        "Hypothesis property-based testing with constructed boundary/near-boundary targets against HiGHS LP oracles (x-space margin, inf-norm distance, convex-weight margin); both directions asserted outside a stated boundary band",
+        "Generated well-scaled systems (2-5 x 1-8, lb zero/positive, ub finite/infinite, K scalar/vector/matrix, baseline) with targets built on zonotope facets/faces/vertices and at "
+        "1e-9..1e-2 x extent on either side; iff for full-dimensional bounded gamuts, soundness+completeness in every configuration (unbounded, flat, dichromat), chromatic membership, explicit clouds.",
+        "Trusts scipy HiGHS LP optima (1e-9); decisions within |margin| < 1e-6 of the boundary are tallied, not asserted.",
+        "DESIGN.md section 6 C03",
+    ),
 }
 
 PENDING_REASON = "check not built yet in this revision (planned, see DESIGN.md section 6); not claimed until its check runs quietly on the unchanged tree"
